@@ -4,7 +4,7 @@ CONSTANTS
   Tgt = {t1, t2}
   MaxId = 2
   MaxBatch = 2
-  MaxWm = 1
+  MaxWm = 0
   ChanCap = 2
   AckCap = 1
   MaxFaults = 2
